@@ -66,7 +66,16 @@ fn run_plan_lay<T: FEl>(tr: &mut Trace, rng: &mut Rng, p: &Plan<T>, dense: usize
     let cfg = Cfg1 { x: Some(&xr), data: &dr, dtag: dtag_for(p.data.ndim(), dynamic), store };
     let qin = dense_queries(&p.x, dense);
     let mut qout = gen::queries_outside(rng, &p.x, 50.0, 6);
-    qout.extend(gen::queries_far(&p.x, true));
+    // far queries only as far as the cubic's own terms stay well inside the floating-point range
+    {
+        let n = p.x.len();
+        let h = (p.x[1].as_f64() - p.x[0].as_f64()).min(p.x[n - 1].as_f64() - p.x[n - 2].as_f64());
+        let limit = if T::NAME == "f32" { (2.0f64).powi(28) } else { (2.0f64).powi(300) };
+        qout.extend(gen::queries_far(&p.x, true).into_iter().filter(|v| {
+            let d = (v.as_f64() - p.x[0].as_f64()).abs().max((v.as_f64() - p.x[n - 1].as_f64()).abs());
+            d / h < limit
+        }));
+    }
     let extra: Vec<(&str, String)> = p.poly.iter().map(|s| ("poly", s.clone())).collect();
     let exs: &[bool] = if extrap { &[false, true] } else { &[false] };
     for &ex in exs {
